@@ -64,12 +64,20 @@ def parseDI (j : Json) : Except String (Option K) :=
 def parseState (j : Json) : Except String St := do
   let cells ← (← j.getObjVal? "cells").getArr?
   let di ← (← j.getObjVal? "data_inputs").getArr?
+  let rtj ← (← j.getObjVal? "real_tree").getArr?
+  let rt ← rtj.toList.mapM (fun x => do
+    let a ← getNats x
+    match a with
+    | [p, t] => pure (p, t)
+    | _ => throw "real_tree: [particle, tree id]")
   return {
     cells := ← cells.toList.mapM parseCell
     mode := ← getNats (← j.getObjVal? "mode")
     flags := ← parseFlags (← j.getObjVal? "flags")
     volCalc := ← (← j.getObjVal? "vol_calc").getBool?
-    dataInputs := ← di.toList.mapM parseDI }
+    dataInputs := ← di.toList.mapM parseDI
+    realTree := rt
+    nextId := (rt.foldl (fun m x => max m (x.2 + 1)) 0) }
 
 def arg (j : Json) (i : Nat) : Except String Json := do
   let a ← j.getArr?
@@ -100,6 +108,7 @@ def parseOp (j : Json) : Except String (Option (List Op)) := do
   | "lat" => return some [.setLat (← (← arg j 1).getNat?) (← getON (← arg j 2))]
   | "fill" => return some [.setFill (← (← arg j 1).getNat?) (← getON (← arg j 2))]
   | "vol_calc" => return some [.setVolCalc (← (← arg j 1).getBool?)]
+  | "observe" => return some []
   | _ => throw s!"unknown op {name}"
 
 def kJ (k : K) : Json := Json.str k.pfx
@@ -113,7 +122,8 @@ def cellJ (c : Cell) : Json := Json.mkObj [
 def stateJ (s : St) : Json := Json.mkObj [
   ("cells", Json.arr (s.cells.map cellJ).toArray), ("mode", toJson s.mode),
   ("flags", toJson [s.flags.imp, s.flags.vol, s.flags.u, s.flags.lat, s.flags.fill]),
-  ("vol_calc", toJson s.volCalc)]
+  ("vol_calc", toJson s.volCalc),
+  ("real_tree", Json.arr (s.realTree.map (fun x => Json.arr #[toJson x.1, toJson x.2])).toArray)]
 
 def errJ : Err → String
   | .valueError => "ValueError" | .particleTypeNotInCell => "ParticleTypeNotInCell"
@@ -146,12 +156,14 @@ def runCase (j : Json) : Except String Json := do
     match ← parseOp oj with
     | none =>
       match writeToFile close s with
-      | .ok items => out := out.push (Json.mkObj [("write", writeJ items)])
+      | .ok items =>
+        s := afterWrite close s
+        out := out.push (Json.mkObj [("write", writeJ items), ("state", stateJ s)])
       | .error e => out := out.push (Json.mkObj [("error", errJ e)])
     | some os =>
       let mut err : Option Err := none
       for o in os do
-        let r := step s o
+        let r := step close s o
         s := r.1
         if r.2.isSome then err := r.2
       out := out.push (Json.mkObj [("state", stateJ s), ("err", match err with | none => Json.null | some e => errJ e)])
